@@ -12,10 +12,11 @@ LimitOf(j) == CASE j.k = "none" -> [k |-> "none"]
                 [] j.k = "ec" -> [k |-> "ec", n |-> j.n]
                 [] j.k = "st" -> [k |-> "st", t |-> j.t]
                 [] OTHER -> [k |-> j.k, l |-> LimitOf(j.l), r |-> LimitOf(j.r)]
+IsHeap == "backend" \in DOMAIN Ev /\ Ev.backend = "heap"     \* recorded from the BinaryHeap backend (see HeapInit)
 TReset == /\ Ev.op = "cfg"
-          /\ cur' = 0 /\ itr' = 0 /\ phase' = "ready" /\ mode' = [k |-> "idle"] /\ nsteps' = 0 /\ next' = 0
+          /\ cur' = (IF IsHeap THEN Ev.start ELSE 0) /\ itr' = 0 /\ phase' = "ready" /\ mode' = [k |-> "idle"] /\ nsteps' = 0 /\ next' = 0
           /\ now' = Ev.start /\ limit' = LimitOf(Ev.limit)
-          /\ pending' = IF Ev.seed THEN {[id |-> 0, t |-> Ev.start, cls |-> IF Ev.start = 0 THEN 0 ELSE 1]} ELSE {}
+          /\ pending' = IF Ev.seed THEN {[id |-> 0, t |-> Ev.start, cls |-> IF Ev.start = 0 \/ IsHeap THEN 0 ELSE 1]} ELSE {}
           /\ nid' = IF Ev.seed THEN 1 ELSE 0
           /\ ret' = [op |-> "cfg"]
 TStep == \/ TReset
